@@ -43,6 +43,17 @@ def workload(tier, seed, scale=1.0):
                         cmds.append(cmd_sf('C10', op, ty, a, sv, 'U', cell=('sf', op, ty, 'U', n, sv.bit_length())))
                     sa = rnd.choice((1, -1))
                     cmds.append(cmd_sf('C10', op, ty, sa * a, sv, 'I', cell=('sf', op, ty, 'I', sa * n, sv.bit_length(), sv < 0)))
+    # exact multiples of the scalar: zero remainders / exact quotients through every form and scalar width
+    for ty in UTYPES + ITYPES:
+        lo, hi = STYPES[ty]
+        for sv in sorted({1, hi, hi - 1, (hi >> 1) + 1, lo, lo + 1, 3} - {0}):
+            for k in (1, 3, (1 << 64) + 1):
+                a = abs(sv) * k
+                for op in ('div', 'rem', 'sub', 'add'):
+                    if ty in UTYPES:
+                        cmds.append(cmd_sf('C10', op, ty, a, sv, 'U', cell=('sf-mult', op, ty, 'U', k.bit_length(), sv.bit_length())))
+                    for sa in (1, -1):
+                        cmds.append(cmd_sf('C10', op, ty, sa * a, sv, 'I', cell=('sf-mult', op, ty, 'I', sa, k.bit_length(), sv.bit_length(), sv < 0)))
     # scalar %= BigUint
     for ty in UTYPES + ITYPES:
         for sv in scalar_extremes(ty)[::2 if quick else 1]:
